@@ -265,7 +265,7 @@ pub fn run_one(opts: RunOpts) -> RunResult {
         aged_hashes: vec![],
         same_process_probes: 0,
         part_weight: *rng.pick(&[25u64, 25, 3]),
-        fault_weight: *rng.pick(&[2u64, 2, 12]),
+        fault_weight: if plan.cfg.max_faults > 2 { 12 } else { *rng.pick(&[2u64, 2, 12]) },
         target: opts.target.clone(),
         rng: Rng::new(mix(opts.seed, 77)),
         rec_cache: vec![None; n_hashes],
